@@ -13,7 +13,7 @@ import random
 
 I64_MAX = 2**63 - 1
 FAULTS = ["garbage", "altbal", "altcid", "altlock", "wrongtype", "oldstate", "otherkey", "wrongbf", "identity", "smallorder"]
-REVKINDS = ["newstate", "wrongbf", "otherchan", "bothwrong"]
+REVKINDS = ["newstate", "wrongbf", "otherchan", "bothwrong", "laterindex"]
 
 
 def scripts_from_walks(walks, scale):
